@@ -137,7 +137,7 @@ PropC12(e) ==
        /\ e.dupsib = "refused" /\ e.dupcousin = "refused" /\ e.duprename = "refused" /\ e.dupinsert = "refused" /\ e.dupinsertdeep = "refused"
        /\ e.dupnest = "refused" /\ e.dupnestfill = "refused"        \* (repeat markers included)
        /\ e.dupgen = "refused" /\ e.dupgenfill = "refused"          \* (names generated by an expansion included)
-       /\ e.dupsameU = "refused" /\ e.dupsameI = "refused" /\ e.dupsameF = "refused" /\ e.dupsameB = "refused" /\ e.dupsameT = "refused" /\ e.dupsamewide = "refused" /\ e.dupsameR = "refused"
+       /\ e.dupsameU = "refused" /\ e.dupsameI = "refused" /\ e.dupsameF = "refused" /\ e.dupsameB = "refused" /\ e.dupsameT = "refused" /\ e.dupsamewide = "refused" /\ e.dupsameRI = "refused" /\ e.dupsameRU = "refused" /\ e.dupsameRF = "refused" /\ e.dupsameRT = "refused"
   /\ e.ev = "ctorbounds" =>
        LET lo == e.lo  hi == e.hi
            ok == ~lo.neg /\ (~hi.neg \/ hi.dec = <<1>>) /\ (hi.neg \/ Cmp(FromDec(lo.dec), FromDec(hi.dec)) <= 0) IN
